@@ -109,6 +109,18 @@ pub fn run(run: &Run) {
             false
         }
     });
+    {
+        let mut labels: Vec<String> = zwnj_run_labels().into_iter().map(|s| format!("pw {s} end")).collect();
+        labels.extend(counted_word_labels());
+        labels.extend(PAYLOADS_FAMILIES.iter().map(|s| s.to_string()));
+        battery(run, "zwnj_runs_and_counted_words", &labels, &|s, l| match check(run, s, l) {
+            Ok(()) => true,
+            Err(v) => {
+                run.violate(v);
+                false
+            }
+        });
+    }
     collisions(run, "fingerprint_collisions", &|s, l| match check(run, s, l) {
         Ok(()) => true,
         Err(v) => {
